@@ -62,8 +62,20 @@ func (c06) Run(c *fw.Case) {
 		valid bool
 	}
 	var seen []obs
-	for _, mk := range u.Markers {
-		inst := u.Wrap(mk)
+	// one marker per chain; with a fork all ordered pairs are sent (the same $dynamicRef is then evaluated
+	// under two dynamic scopes within one call)
+	var combos [][]any
+	for _, m1 := range u.Markers {
+		if len(u.Routes) == 1 {
+			combos = append(combos, []any{m1})
+			continue
+		}
+		for _, m2 := range u.Markers {
+			combos = append(combos, []any{m1, m2})
+		}
+	}
+	for _, combo := range combos {
+		inst := u.Wrap(combo...)
 		valid, decided := mc.compare(c, m, rs, inst, &ts, fmt.Sprintf("$dynamicRef %q", u.Final))
 		if !decided {
 			continue
@@ -108,6 +120,6 @@ func (c06) Run(c *fw.Case) {
 		for k, v := range u.Docs {
 			docs[k] = json.RawMessage(v)
 		}
-		c.Sample(map[string]any{"root": json.RawMessage(u.Root), "loader_documents": docs, "final_dynamicRef": u.Final, "route": u.Route, "shape": u.Shape})
+		c.Sample(map[string]any{"root": json.RawMessage(u.Root), "loader_documents": docs, "final_dynamicRef": u.Final, "routes": u.Routes, "shape": u.Shape})
 	}
 }
